@@ -472,6 +472,38 @@ def gen_program(rng, size):
     return history(tops, scripts)
 
 
+def gen_cross(rng):
+    """cross-emitter nesting: emitter A emits at depth d (its slot re-emits), the innermost slot emits on emitter B,
+    and B's slot acts on A while A's emissions are still running (destroys A, disconnects / connects on the signal
+    being emitted, destroys a listener with a pending slot, re-creates A, emits A once more)"""
+    A, B = rng.sample(range(NE), 2)
+    ga, gb = rng.randrange(NG), rng.randrange(NG)
+    la, lb, l3 = rng.sample(range(NL), 3)
+    sa, sb, s3 = rng.randrange(NS), rng.randrange(NS), rng.randrange(NS)
+    d = rng.choice([1, 2, 2, 3])
+    scripts = {}
+    for k in range(d - 1):
+        scripts[(la, sa, k)] = [("m", A, ga)]
+    scripts[(la, sa, d - 1)] = [("m", B, gb)] + ([("m", A, ga)] if rng.random() < 0.2 else [])
+    on_a = rng.choice([
+        [("E", A)], [("E", A)], [("d", A, ga, la, sa)], [("d", A, ga, l3, s3)], [("c", A, ga, lb, sb)], [("L", la)], [("L", l3)],
+        [("E", A), ("w", A), ("c", A, ga, la, sa), ("m", A, ga)], [("m", A, ga)], [("L", lb)],
+        [("d", A, ga, l3, s3), ("c", A, ga, l3, s3), ("d", A, ga, l3, s3)], [("E", A), ("E", B)], [("L", la), ("n", la), ("c", A, ga, la, sa)],
+    ])
+    extra = [rng.choice([("c", A, ga, l3, s3), ("d", B, gb, lb, sb), ("m", B, gb), ("L", l3), ("E", B)])] if rng.random() < 0.4 else []
+    scripts[(lb, sb, 0)] = (on_a + extra) if rng.random() < 0.7 else (extra + on_a)
+    if rng.random() < 0.5:
+        scripts[(l3, s3, 0)] = [rng.choice([("d", A, ga, la, sa), ("m", B, gb), ("c", A, ga, l3, s3), ("E", A), ("L", l3)])]
+    tops = [("c", A, ga, la, sa), ("c", A, ga, l3, s3), ("c", B, gb, lb, sb)]
+    if rng.random() < 0.3:
+        tops.append(("c", A, ga, la, sa))
+    rng.shuffle(tops)
+    tops += [("m", A, ga), ("m", A, ga), ("m", B, gb)]
+    if rng.random() < 0.3:
+        tops += [("w", A), ("c", A, ga, la, sa), ("m", A, ga)]
+    return history(tops, scripts)
+
+
 def nesting_depth(hist):
     """maximal emission nesting of a program, measured on the specification"""
     table = {}
@@ -702,20 +734,23 @@ def histories_for(ctx):
                 desc.append(f"every 4th of them over signals 5,2: {len(e[::4])}")
     nrand = 5000 if quick else 100000
     rnd = [gen_program(rng, rng.choice([6, 10, 16, 24, 40])) for _ in range(nrand)]
+    ncross = 1500 if quick else 20000
+    rnd += [gen_cross(rng) for _ in range(ncross)]
     depths = {}
     for h in rnd[:2000]:
         d = nesting_depth(h)
         depths[d] = depths.get(d, 0) + 1
     ctx.cov["nesting_depth_histogram_first_2000_random"] = {str(k): v for k, v in sorted(depths.items())}
     hits = {}
-    sample = hs + ex[::10] + rnd[:3000]
+    sample = hs + ex[::10] + rnd[:3000] + rnd[nrand:nrand + 500]
     count_hits(sample, hits)
-    ctx.cov["branch_hits"] = {"measured_on": f"corpus + every 10th enumerated program + the first 3000 random programs ({len(sample)} programs), "
+    ctx.cov["branch_hits"] = {"measured_on": f"corpus + every 10th enumerated program + the first 3000 random programs + the first 500 cross-emitter programs ({len(sample)} programs), "
                                              "situations counted by the Python oracle",
                               "hits": dict(sorted(hits.items()))}
     ctx.cov["rule"] = (f"corpus ({ncorpus}) + exhaustive: every program (top-level actions + slot scripts, up to renaming of emitters/"
                        f"signals/listeners/slots) of total size <= N in which every scripted cell is invoked [{'; '.join(desc)}] + "
-                       f"{len(rnd)} random programs of total size <= 6..40 over 3 emitters x 9 signals (signal g = arity g, 0..8; every emission carries an argument tuple that the slots check and log) x 3 listeners x 2 slots "
+                       f"{ncross} structured cross-emitter programs (a slot of emitter B's emission acts on emitter A while A emits at depth 1..3) + "
+                       f"{nrand} random programs of total size <= 6..40 over 3 emitters x 9 signals (signal g = arity g, 0..8; every emission carries an argument tuple that the slots check and log) x 3 listeners x 2 slots "
                        "(scripts on invocation numbers < 8, connect/disconnect/emit/delete or re-create listener/emitter inside slots); "
                        "distinct_nontrivial = distinct observation streams among programs with >= 3 slot invocations")
     ctx.cov["exhaustive"] = False
